@@ -971,17 +971,17 @@ End PartT.
 End TD.
 
 
-(* from the liveness invariant relative to the destroyed caches, for an OPEN session *)
-Lemma encrypt_total_from_HILD svc prod h s x fa payload :
-  HILD svc prod (h_world h) ->
+(* from the liveness invariant relative to the destroyed caches, for an OPEN session of an open factory *)
+Lemma encrypt_total_from_HILD svc prod cf h s x fa payload :
+  HILD svc prod cf (h_world h) ->
   let w := h_world h in
-  nth_error (w_sessions w) s = Some x -> ss_torn x = false -> nth_error (w_factories w) (ss_factory x) = Some fa ->
+  nth_error (w_sessions w) s = Some x -> ss_torn x = false -> ~ In (ss_factory x) cf -> nth_error (w_factories w) (ss_factory x) = Some fa ->
   nz_store (w_store w) -> new_key_timestamp (w_now w) (p_precision (fa_policy fa)) <> 0 ->
   exists pm c, fst (fst (hstep h (HEncrypt s payload []))) = OEnc pm c.
 Proof.
-  intros [D [kinds [H [HIL0 [_ O]]]]] w Es T Ef NZ TZ. fold w in HIL0, O.
+  intros [D [kinds [H [HIL0 [_ O]]]]] w Es T NF Ef NZ TZ. fold w in HIL0, O.
   assert (EL : env_live D {| en_part := ss_part x; en_pol := fa_policy fa; en_sk := fa_sk fa; en_ik := ss_ik x |}).
-  { split; cbn [en_sk en_ik]; [exact (proj1 (ow_fact D w O _ fa Ef)) | exact (proj2 (ow_sess D w O s x Es) T)]. }
+  { split; cbn [en_sk en_ik]; [exact (proj1 (ow_fact cf D w O _ fa Ef NF)) | exact (proj2 (ow_sess cf D w O s x Es) T (or_intror NF))]. }
   cbn [hstep]. fold w. set (w0 := begin_op [] w).
   pose proof (IL_begin_op D svc prod kinds H [] w HIL0) as [HI0 L0]. fold w0 in HI0, L0.
   assert (HB : Base D svc prod kinds (w_now w) H w0).
@@ -998,22 +998,24 @@ Proof.
   destruct Y as [_ [k [c [ikm [n [dkm [n' [Dk [Ep _]]]]]]]]]. rewrite Dk, Ep. eexists; eexists; reflexivity.
 Qed.
 
-(* At the API, for the DEFAULT policy too (every session owns its intermediate-key cache, Session.Close destroys it): after any history of
-   new factories, sessions, encrypts and decrypts under any fault plans, clock changes, revocations and session closes in which nothing
-   addresses a closed session, an Encrypt on an OPEN session for which no fault is injected SUCCEEDS. *)
+(* At the API, for the DEFAULT policy too (every session owns its intermediate-key cache, Session.Close destroys it) and with factories being
+   closed (SessionFactory.Close destroys the factory's system-key cache and its shared intermediate-key cache): after any history of new
+   factories, sessions, encrypts and decrypts under any fault plans, clock changes, revocations, session closes and factory closes in which
+   nothing addresses a closed session or a session of a closed factory, an Encrypt on an OPEN session of an open factory for which no fault is
+   injected SUCCEEDS. *)
 Theorem unfaulted_encrypt_succeeds_own_closing svc prod t0 ops s x fa payload :
-  okrun svc prod (hinit t0) ops ->
+  okrun svc prod [] (hinit t0) ops ->
   let h := snd (hrun (hinit t0) ops) in
   let w := h_world h in
-  nth_error (w_sessions w) s = Some x -> ss_torn x = false -> nth_error (w_factories w) (ss_factory x) = Some fa ->
+  nth_error (w_sessions w) s = Some x -> ss_torn x = false -> ~ In (ss_factory x) (cf_run [] ops) -> nth_error (w_factories w) (ss_factory x) = Some fa ->
   nz_store (w_store w) -> new_key_timestamp (w_now w) (p_precision (fa_policy fa)) <> 0 ->
   exists pm c, fst (fst (hstep h (HEncrypt s payload []))) = OEnc pm c.
 Proof.
-  intros OK h w. apply (encrypt_total_from_HILD svc prod h s x fa payload). exact (proj2 (closing_invariants_reachable_own svc prod t0 ops OK)).
+  intros OK h w. apply (encrypt_total_from_HILD svc prod (cf_run [] ops) h s x fa payload). exact (proj2 (closing_invariants_reachable_own svc prod t0 ops OK)).
 Qed.
 
-(* the premises are met after the history of LiveCloseD.own_closing_ops (default policy; session 0 closed), and the Encrypt in the open
-   session 2 returns a record *)
+(* the premises are met after the history of LiveCloseD.own_closing_ops (default policy; sessions 0 and 1 and factory 0 closed), and the
+   Encrypt in the open session 2 of the open factory 1 returns a record *)
 Example unfaulted_encrypt_own_closing_nonvacuous :
   let h := snd (hrun (hinit Rotation.t0) own_closing_ops) in
   nz_storeb (w_store (h_world h)) = true /\
